@@ -31,36 +31,102 @@ structure SBindings where
   intensity : List Nat := []
   deriving DecidableEq, Repr, Inhabited
 
-/-- the invocations one event owes: one per bound handler whose kind matches a component of the event
-(the generic trigger handler matches every event of its id) -/
-def expectedFor (b : SBindings) (e : SEvent) : List SInv :=
-  (if e.id ∈ b.trigger then [SInv.trigger e.id e] else [])
-  ++ (match e.binary with
-      | some (p, edge) => if e.id ∈ b.binary then [SInv.binary e.id (if p then 1 else 0) (edge % 256)] else []
-      | none => [])
-  ++ (match e.pulsed with | some v => if e.id ∈ b.pulsed then [SInv.pulsed e.id v] else [] | none => [])
-  ++ (match e.absolute with | some v => if e.id ∈ b.absolute then [SInv.absolute e.id (v : Int)] else [] | none => [])
-  ++ (match e.speed with | some v => if e.id ∈ b.intensity then [SInv.intensity e.id v] else [] | none => [])
+/-- the five kinds of handler a user can register for a component id -/
+inductive Kind | trigger | binary | pulsed | absolute | intensity
+  deriving DecidableEq, Repr, Inhabited
 
-/-- same elements with the same multiplicities (order between the handlers of ONE event is not fixed by the property) -/
-def sameMultiset (a b : List SInv) : Bool :=
-  a.length == b.length && a.all (fun x => a.count x == b.count x)
+def Kind.all : List Kind := [.trigger, .binary, .pulsed, .absolute, .intensity]
+
+/-- a handler of kind `k` is registered for component `id` -/
+def SBindings.has (b : SBindings) : Kind → Nat → Bool
+  | .trigger, id => decide (id ∈ b.trigger)
+  | .binary, id => decide (id ∈ b.binary)
+  | .pulsed, id => decide (id ∈ b.pulsed)
+  | .absolute, id => decide (id ∈ b.absolute)
+  | .intensity, id => decide (id ∈ b.intensity)
+
+def SBindings.add (b : SBindings) : Kind → Nat → SBindings
+  | .trigger, id => { b with trigger := id :: b.trigger }
+  | .binary, id => { b with binary := id :: b.binary }
+  | .pulsed, id => { b with pulsed := id :: b.pulsed }
+  | .absolute, id => { b with absolute := id :: b.absolute }
+  | .intensity, id => { b with intensity := id :: b.intensity }
+
+/-- the event matches a handler of kind `k`: a typed handler matches an event that has the component of its kind
+(the intensity handler is the one for speed components), the generic trigger handler matches every event -/
+def SEvent.carries (e : SEvent) : Kind → Bool
+  | .trigger => true
+  | .binary => e.binary.isSome
+  | .pulsed => e.pulsed.isSome
+  | .absolute => e.absolute.isSome
+  | .intensity => e.speed.isSome
+
+/-- which kind of handler was invoked -/
+def SInv.kind : SInv → Kind
+  | .trigger .. => .trigger
+  | .binary .. => .binary
+  | .pulsed .. => .pulsed
+  | .absolute .. => .absolute
+  | .intensity .. => .intensity
+
+/-- the invocation carries the event's component id and its press state and edge (as `BinaryStatus` 0/1 and the 8-bit
+`BinaryEdge`), or its value; the generic handler gets the event itself -/
+def argsMatch (e : SEvent) : SInv → Bool
+  | .trigger id ev => decide (id = e.id) && decide (ev = e)
+  | .binary id st ed => decide (id = e.id) && (match e.binary with
+      | some (p, edge) => decide (st = (if p then 1 else 0)) && decide (ed = edge % 256)
+      | none => false)
+  | .pulsed id v => decide (id = e.id) && decide (e.pulsed = some v)
+  | .absolute id v => decide (id = e.id) && decide (e.absolute.map Int.ofNat = some v)
+  | .intensity id v => decide (id = e.id) && decide (e.speed = some v)
+
+/-- how often a handler of kind `k` was invoked in a stretch of the log -/
+def countKind (k : Kind) (g : List SInv) : Nat := (g.filter (fun i => decide (i.kind = k))).length
+
+/-- event `e` owes an invocation of the handler of kind `k`: it is bound to the event's id and the event matches -/
+def owesKind (b : SBindings) (e : SEvent) (k : Kind) : Bool := b.has k e.id && e.carries k
+
+/-- how many invocations the event owes -/
+def owedCount (b : SBindings) (e : SEvent) : Nat := (Kind.all.filter (owesKind b e)).length
+
+/-- EXACTLY ONCE PER MATCHING EVENT: the stretch `g` of the log is what event `e` owes — for every kind of handler,
+exactly one invocation if that handler is bound to the event's id and the event matches it, none otherwise; and
+every invocation carries the event's id and arguments.  (The order between the handlers of ONE event is not fixed
+by the property.) -/
+def groupOk (b : SBindings) (e : SEvent) (g : List SInv) : Bool :=
+  Kind.all.all (fun k => countKind k g == (if owesKind b e k then 1 else 0)) && g.all (argsMatch e)
+
+/-- the beginning of such a group: nothing in it that the event does not owe, nothing twice -/
+def groupPrefixOk (b : SBindings) (e : SEvent) (g : List SInv) : Bool :=
+  Kind.all.all (fun k => decide (countKind k g ≤ (if owesKind b e k then 1 else 0))) && g.all (argsMatch e)
 
 inductive LogVerdict | ok | short | extra | mismatch
   deriving DecidableEq, Repr
 
-/-- the log must be, event by event in panel order, exactly the invocations that event owes -/
-def checkLog (b : SBindings) : List SEvent → List SInv → LogVerdict
+/-- a run as the user sees it: registrations and events in the order in which they happened -/
+inductive SDyn
+  | bind (k : Kind) (id : Nat)
+  | event (e : SEvent)
+  deriving DecidableEq, Repr, Inhabited
+
+/-- IN PANEL ORDER: the log must be, event by event, exactly the invocations that event owes to the handlers
+registered before it -/
+def checkLogDyn (b : SBindings) : List SDyn → List SInv → LogVerdict
   | [], [] => .ok
   | [], _ :: _ => .extra
-  | e :: es, log =>
-    let want := expectedFor b e
-    let got := log.take want.length
-    if got.length < want.length then
+  | .bind k id :: r, log => checkLogDyn (b.add k id) r log
+  | .event e :: r, log =>
+    let n := owedCount b e
+    let got := log.take n
+    if got.length < n then
       -- the log ends inside / before this event's group: stalled or lost
-      if got.all (fun x => want.contains x) then .short else .mismatch
-    else if sameMultiset got want then checkLog b es (log.drop want.length)
+      if groupPrefixOk b e got then .short else .mismatch
+    else if groupOk b e got then checkLogDyn b r (log.drop n)
     else .mismatch
+
+/-- the same for a fixed set of handlers -/
+def checkLog (b : SBindings) (es : List SEvent) (log : List SInv) : LogVerdict :=
+  checkLogDyn b (es.map SDyn.event) log
 
 /-! ### history items -/
 inductive Item
@@ -71,6 +137,7 @@ inductive Item
   | avail (kv : List (Nat × Nat))
   | broken (overLimit : Bool)   -- over-limit header (true) or truncated frame (false)
   | wait
+  | bind (k : Kind) (id : Nat)  -- the user registers a handler at this point of the script
   deriving DecidableEq, Repr, Inhabited
 
 /-- everything before the first broken frame -/
@@ -89,6 +156,9 @@ def splitLastWait (h : List Item) : List Item × List Item :=
   (h.take (h.length - after.length), after)
 
 def eventsOf (h : List Item) : List SEvent := h.filterMap (fun i => match i with | .event e => some e | _ => none)
+/-- events and registrations of a script, in order -/
+def dynOf (h : List Item) : List SDyn :=
+  h.filterMap (fun i => match i with | .event e => some (SDyn.event e) | .bind k id => some (SDyn.bind k id) | _ => none)
 def pingCount (h : List Item) : Nat := (h.filter (· = .ping)).length
 
 /-- the latest non-empty value (empty strings do not overwrite) -/
@@ -113,6 +183,12 @@ def lastValue (k : Nat) : List (Nat × Nat) → Option Nat
 /-- model, serial, topology JSON and SVG have all arrived (non-empty) -/
 def allFourArrived (h : List Item) : Bool :=
   (models h).any (· ≠ []) && (serials h).any (· ≠ []) && (jsons h).any (· ≠ []) && (svgs h).any (· ≠ [])
+
+/-- CONNECT RESULT: connecting succeeds exactly when model, serial, topology JSON and SVG arrive within the
+initialisation window.  `arrived` = what arrived before the window closed; `connectOk` = `Connect` returned no error. -/
+def connectResult (arrived : List Item) (connectOk : Bool) : Option String :=
+  if connectOk = allFourArrived arrived then none
+  else some (if connectOk then "connect_succeeded_although_item_missing" else "connect_failed_although_all_items_arrived")
 
 def lastHWcCount (h : List Item) : Option Nat :=
   h.foldl (fun acc i => match i with | .topo j _ n => if j = [] then acc else some n | _ => acc) none
@@ -140,6 +216,7 @@ structure Obs where
 structure Script where
   ascii : Bool := false
   initItems : List Item := []     -- what the panel answered to the initial request within the 2 s window
+  initEnded : Bool := false       -- the connection ended inside the window (closed by the panel / broken frame): nothing more can arrive
   bind : SBindings := {}
   feedback : Bool := false
   hist : List Item := []
@@ -150,11 +227,12 @@ def probeMs : Nat := 2000
 def burstBoundMs : Nat := 5000
 
 def check (sc : Script) (o : Obs) : Option String :=
-  let shouldInit := allFourArrived sc.initItems
-  if o.initOk ≠ shouldInit then some (if shouldInit then "connect_failed_although_all_items_arrived" else "connect_succeeded_although_item_missing")
-  else if !o.initOk then
-    -- the error must not come before the window has passed
-    if o.tconn + 5 < initWindowMs + (if sc.ascii then probeMs else 0) then some "connect_error_before_window" else none
+  match connectResult sc.initItems o.initOk with
+  | some c => some c
+  | none =>
+  if !o.initOk then
+    -- the error must not come before the window has passed, while the missing items could still arrive
+    if !sc.initEnded && o.tconn + 5 < initWindowMs + (if sc.ascii then probeMs else 0) then some "connect_error_before_window" else none
   else
     let h := beforeBroken sc.hist
     let all := sc.initItems ++ h
@@ -162,9 +240,9 @@ def check (sc : Script) (o : Obs) : Option String :=
     -- it (no pause in between) may still be queued and are then dropped.  They are allowed, not demanded (timing
     -- tolerance); everything up to the last pause before the broken frame is demanded.
     let (req, opt) := if hasBroken sc.hist then splitLastWait h else (h, [])
-    let optEv := eventsOf opt
-    let verdicts := (List.range (optEv.length + 1)).map (fun k => checkLog sc.bind (eventsOf req ++ optEv.take k) o.inv)
-    let verdict := if verdicts.any (· = .ok) then LogVerdict.ok else checkLog sc.bind (eventsOf h) o.inv
+    let optEv := dynOf opt
+    let verdicts := (List.range (optEv.length + 1)).map (fun k => checkLogDyn sc.bind (dynOf req ++ optEv.take k) o.inv)
+    let verdict := if verdicts.any (· = .ok) then LogVerdict.ok else checkLogDyn sc.bind (dynOf h) o.inv
     match verdict with
     | .extra => some (if hasBroken sc.hist then (if firstBrokenIsOverLimit sc.hist then "invocation_after_broken_frame" else "invocation_after_truncated_frame") else "invocation_unexpected")
     | .mismatch => some "invocation_mismatch"
